@@ -44,6 +44,7 @@ fn table() -> Vec<Entry> {
         entry!("C01", c01, "exploration"),
         entry!("C02", c02, "exploration"),
         entry!("C03", c03, "exploration"),
+        entry!("C04", c04, "exploration"),
         entry!("C05", c05, "exploration"),
         entry!("C06", c06, "exploration"),
         entry!("C07", c07, "exploration"),
